@@ -24,7 +24,8 @@ THEOREMS = ["C14_build_closed", "C14_heal_closed", "C14_replace_closed", "C14_cl
             "C14_heal_terminates", "C14_source_untouched_observe", "C14_extend_closed",
             "C14_extend_source_untouched", "C14_extend_preserved", "C14_visibility_types",
             "C14_visibility_members", "C14_clone_preserved", "C14_vis_preserved", "C14_camel_preserved",
-            "C14_camel_complete", "C14_visibility_complete", "C14_clone_observe_equal", "C14_clone_repeatable"]
+            "C14_camel_complete", "C14_visibility_complete", "C14_clone_observe_equal", "C14_clone_repeatable",
+            "C14_repeatable", "C14_repeatable_vis", "C14_repeatable_camel"]
 AXIOMS_OK = []
 RUN_MODULE = "Run.C14run Schema.StoreModel Schema.StoreExtend"
 AGREE = "agree_C14"
